@@ -121,6 +121,10 @@ def directed_histories():
     # handles outliving their pool; address reuse by a younger pool; ids never reused
     hs.append(["c 0", "a 0 8 NN", "a 0 9 NN", "x 0", "c 0", "a 1 8 RR", "a 1 16 RR", "d 0", "d 1", "d 2", "a 1 8 NN", "x 1", "d 3", "d 4"])
     hs.append(["c 0", "c 0", "c 0", "x 1", "c 0", "x 0", "c 0", "a 4 1 NN", "a 2 1 NN", "a 3 1 RR"])
+    hs.append(["c 0", "a 0 8 NN", "x 0", "c 0", "a 1 8 RR", "d 0", "a 1 8 NN", "x 1", "c 0"])
+    # a cached block of the neighbouring class must not be used
+    for k in range(0, 63):
+        hs.append(["c 0", "a 0 %d NN" % 2 ** (k + 1), "a 0 %d NN" % 2 ** k, "d 0", "d 1", "a 0 %d NN" % max(1, 2 ** k - 1), "a 0 %d NN" % 2 ** k, "a 0 %d NN" % (2 ** k + 1)])
     # two pools, same classes, interleaved
     hs.append(["c 0", "c 4", "a 0 3 NN", "a 1 3 NN", "d 0", "a 1 3 NN", "a 0 3 NN", "d 1", "d 2", "d 3", "a 0 4 FN", "a 1 4 FN"])
     return hs
@@ -161,7 +165,34 @@ def parse_item(s):
 
 def monitor(case, out):
     """Evaluate the clauses of C18 on the implementation's trace alone.  Returns a list of
-    violated clauses (empty = the trace satisfies the property)."""
+    violated clauses (empty = the trace satisfies the property).  Never raises: a trace
+    that cannot be understood is itself reported as a violated clause."""
+    try:
+        return _monitor(case, out)
+    except Exception as e:   # unexpected implementation output
+        return ["trace not understood (%s: %s): %s" % (type(e).__name__, e, out[:200])]
+
+
+def clean_events(evs, bad, what):
+    """Keep the well-formed events; report the others (the C++ driver marks a deleter call on
+    a block that is not outstanding with `!NOT-OUTSTANDING`, an allocator call beyond the
+    second of one allocate with EXTRA-ALLOCATOR-CALL)."""
+    out = []
+    for e in evs:
+        if "!NOT-OUTSTANDING" in e:
+            bad.append("deleter-exactly-once: %s: deleter called on a block that is not outstanding (%s)" % (what, e))
+            e = e.split("!")[0]
+        if e == "EXTRA-ALLOCATOR-CALL":
+            bad.append("retry-once: %s: more than two allocator calls in one allocate" % what)
+            continue
+        if EV_RE.match(e):
+            out.append(e)
+        else:
+            bad.append("%s: unexpected event %r" % (what, e))
+    return out
+
+
+def _monitor(case, out):
     bad = []
     try:
         _, base, text = case.split(" ", 2)
@@ -202,6 +233,7 @@ def monitor(case, out):
     for o, it in zip(ops, items):
         t = o.split()
         head, evs = parse_item(it)
+        evs = clean_events(evs, bad, o)
         if t[0] == "c":
             if not head[0].startswith("c"):
                 bad.append("create: %s" % it)
@@ -243,7 +275,9 @@ def monitor(case, out):
             else:
                 okc = [e for e in acalls if not e.endswith(":F")]
                 fl = [e for e in acalls if e.endswith(":F")]
-                if len(acalls) > 2 or not acalls:
+                if not acalls and head[0] == "ok":
+                    bad.append("size-class / reuse: block %s handed out without an allocator call although class %d has no cached block (cached: %s)" % (head[1], c, P["cache"]))
+                elif len(acalls) > 2 or not acalls:
                     bad.append("retry-once: %d allocator calls" % len(acalls))
                 if fl:
                     dels = sorted(int(EV_RE.match(e).group(3)) for e in evs if e.startswith("D"))
@@ -308,6 +342,7 @@ def monitor(case, out):
     else:
         for P, part in zip(alive, parts):
             _, evs = parse_item(part)
+            evs = clean_events(evs, bad, "clean-up destroy")
             own = sorted([p for l in P["cache"].values() for p in l] + list(P["sup"].keys()))
             dels = sorted(int(EV_RE.match(e).group(3)) for e in evs if EV_RE.match(e) and e.startswith("D"))
             if dels != own or len(dels) != len(evs):
@@ -315,6 +350,129 @@ def monitor(case, out):
             do_events(evs, P, set(own), "destroy")
     if outstanding:
         bad.append("never-leaks: blocks %s never passed to the deleter" % sorted(outstanding))
+    return bad
+
+
+# --------------------------------------------------------------------------- shrinking + comparison
+
+def remove_op(ops, i):
+    """ops without op i, with the line-local pool# / alloc# references renumbered; ops that
+    referred to a removed pool / allocation are removed too."""
+    t = ops[i].split()
+    pool_no = sum(1 for o in ops[:i] if o.startswith("c "))
+    alloc_no = sum(1 for o in ops[:i] if o.startswith("a "))
+    out = []
+    a_seen = 0
+    dropped_allocs = set()
+    # first pass: which allocs disappear
+    if t[0] == "c":
+        n = 0
+        for j, o in enumerate(ops):
+            u = o.split()
+            if u[0] == "a":
+                if int(u[1]) == pool_no:
+                    dropped_allocs.add(n)
+                n += 1
+    elif t[0] == "a":
+        dropped_allocs.add(alloc_no)
+
+    def renum_alloc(m):
+        return m - sum(1 for d in dropped_allocs if d < m)
+    n = 0
+    for j, o in enumerate(ops):
+        u = o.split()
+        if u[0] == "a":
+            mine = n
+            n += 1
+            if j == i or mine in dropped_allocs:
+                continue
+            if t[0] == "c":
+                k = int(u[1])
+                if k > pool_no:
+                    u[1] = str(k - 1)
+            out.append(" ".join(u))
+        elif u[0] == "d":
+            m = int(u[1])
+            if j == i or m in dropped_allocs:
+                continue
+            u[1] = str(renum_alloc(m))
+            out.append(" ".join(u))
+        elif u[0] == "x":
+            if j == i:
+                continue
+            k = int(u[1])
+            if t[0] == "c":
+                if k == pool_no:
+                    continue
+                if k > pool_no:
+                    u[1] = str(k - 1)
+            out.append(" ".join(u))
+        else:  # c
+            if j == i:
+                continue
+            out.append(o)
+    return out
+
+
+def shrink(ops, still_fails, budget=1500):
+    changed = True
+    while changed and budget > 0:
+        changed = False
+        i = len(ops) - 1
+        while i >= 0 and budget > 0:
+            cand = remove_op(ops, i)
+            budget -= 1
+            if cand and still_fails(cand):
+                ops = cand
+                changed = True
+            i -= 1
+            i = min(i, len(ops) - 1)
+    return ops
+
+
+def hist_correspondence(ctx, name, cases, impl, model, impl_env=None, timeout=900):
+    """pv.correspondence for history lines, with the property monitor as the judge of a
+    disagreement and with shrinking of the reported history."""
+    rc1, o1 = pv.run_lines(impl, cases, timeout=timeout, env=impl_env)
+    rc2, o2 = pv.run_lines(model, cases, timeout=timeout)
+    cov = ctx.cov
+    cov["evaluations"] = cov.get("evaluations", 0) + len(cases)
+    cov["traces_validated_against_impl"] = cov.get("traces_validated_against_impl", 0) + min(len(o1), len(cases))
+    seen = ctx.__dict__.setdefault("_distinct", set())
+    for c, out in zip(cases, o1):
+        if "ok:" in out:
+            seen.add(c.split(" ", 2)[2] if c.count(" ") >= 2 else c)
+    cov["distinct_nontrivial"] = len(seen)
+    cov.setdefault("correspondences", {})[name] = {"cases": len(cases), "impl_rc": rc1, "model_rc": rc2}
+    if rc2 != 0:
+        ctx.violation("model-" + name, {"kind": "model-driver-crash", "rc": rc2, "tail": o2[-5:]}, False, "model driver failed (rc=%d)" % rc2)
+        return []
+    bad = pv.diff_outputs(cases, o1, o2)
+    cov["disagreements"] = cov.get("disagreements", 0) + len(bad)
+    if not bad:
+        return bad
+
+    def run1(binary, ops, env=None):
+        rc, out = pv.run_lines(binary, ["H 0 " + ";".join(ops)], timeout=60, env=env)
+        return out[0] if out else "<crash rc=%d>" % rc
+    # prefer a disagreement that is by itself a failing input (monitor), shrink it
+    flagged = [b for b in bad if monitor(b[1], b[2])]
+    picks = (flagged[:2] if flagged else []) + [b for b in bad if b not in flagged][:(1 if flagged else 3)]
+    for (i, c, x, y) in picks:
+        ops = [o.strip() for o in c.split(" ", 2)[2].split(";") if o.strip()]
+        is_fail = bool(monitor(c, x))
+        if is_fail:
+            small = shrink(ops, lambda cand: bool(monitor("H 0 " + ";".join(cand), run1(impl, cand, impl_env))))
+        else:
+            small = shrink(ops, lambda cand: run1(impl, cand, impl_env) != run1(model, cand))
+        sc = "H 0 " + ";".join(small)
+        sx, sy = run1(impl, small, impl_env), run1(model, small)
+        why = monitor(sc, sx)
+        obj = {"kind": "correspondence", "engine": name, "case": sc, "impl": sx, "model": sy,
+               "witness": "%s :: %s" % (name, sc), "clauses_violated": why, "original_case": c,
+               "impl_driver": impl, "model_driver": model}
+        ctx.violation("corr-" + name, obj, is_fail,
+                      "history `%s`: implementation `%s` vs model `%s`%s" % (sc[4:], sx[:400], sy[:400], ("; violates " + "; ".join(why[:2])) if why else ""))
     return bad
 
 
@@ -429,7 +587,7 @@ def run(ctx):
 
     def nontriv(c, out):
         return "ok:" in out
-    bad = pv.correspondence(ctx, "pool", hcases, impl, model, functional=False, oracle=hist_oracle, nontrivial=nontriv)
+    bad = hist_correspondence(ctx, "pool", hcases, impl, model)
     # the monitor also runs on every agreeing trace (it is an independent statement of the property)
     rc, outs = pv.run_lines(impl, hcases[: 400 if quick else 5000])
     mon_bad = [(c, o, monitor(c, o)) for c, o in zip(hcases, outs)]
@@ -454,13 +612,12 @@ def run(ctx):
     if not quick:
         impl2 = pv.build_harness("asan", "pool_drv")
         sub = assemble(hists[:: max(1, len(hists) // 20000)])
-        pv.correspondence(ctx, "pool-asan", sub, impl2, model, functional=False, oracle=hist_oracle, nontrivial=nontriv,
-                          impl_env={"ASAN_OPTIONS": "detect_leaks=1"})
+        hist_correspondence(ctx, "pool-asan", sub, impl2, model, impl_env={"ASAN_OPTIONS": "detect_leaks=1"})
         pv.correspondence(ctx, "pool-shifts-asan", scases[:20000], impl2, model, functional=False, oracle=shift_oracle)
         for ds in (1, 2):   # further derived seeds
             rr = __import__("random").Random(ctx.seed * 1000 + ds)
             hs = [gen_history(rr, False)[0] for _ in range(20000)]
-            pv.correspondence(ctx, "pool-seed%d" % ds, assemble(hs), impl, model, functional=False, oracle=hist_oracle, nontrivial=nontriv)
+            hist_correspondence(ctx, "pool-seed%d" % ds, assemble(hs), impl, model)
 
     ctx.cov["exhaustive"] = False
     ctx.assumptions += [
